@@ -175,7 +175,7 @@ func (rg *rootGeneratorPipeline) worker(ctx context.Context, wg *sync.WaitGroup,
 					continue
 				}
 
-				if nodes == nil {
+				if root == nil {
 					errc <- errNilStack
 					return
 				}
@@ -188,6 +188,9 @@ func (rg *rootGeneratorPipeline) worker(ctx context.Context, wg *sync.WaitGroup,
 			if err := sc.Err(); err != nil {
 				errc <- err
 				return
+			}
+			if root == nil {
+				continue // blank-only block
 			}
 			select {
 			case <-ctx.Done():
